@@ -8,6 +8,8 @@ CONSTANTS
   SrvMayClose = TRUE
   Reactions <- SomeReactions
   HandlerReconnect = FALSE
+  SrvMayStall = FALSE
+  ShutdownBoth = TRUE
   Fixed = FALSE
   Emit = FALSE
 INVARIANT AtMostOneInIo
